@@ -90,6 +90,9 @@ impl Cfg {
 
 /// Process-wide sink for interleaving signatures (std mutex: never held across a scheduling point).
 static SIGS: StdMutex<Option<BTreeSet<u64>>> = StdMutex::new(None);
+/// Set by the oracle just before it panics, so that a replay does not depend on how shuttle
+/// propagates the panic.
+static VIOLATED: StdMutex<Option<String>> = StdMutex::new(None);
 static EXECUTIONS: std::sync::atomic::AtomicU64 = std::sync::atomic::AtomicU64::new(0);
 static STEPS: std::sync::atomic::AtomicU64 = std::sync::atomic::AtomicU64::new(0);
 
@@ -120,8 +123,16 @@ fn scenario(cfg: Arc<Cfg>) -> impl Fn() + Send + Sync + 'static {
         for (t, name) in results.iter() {
             let part = if *t == usize::MAX { "main" } else { cfg.parts[*t].as_str() };
             let file = Path::new(name).file_name().map(|f| f.to_string_lossy().into_owned()).unwrap_or_default();
-            assert!(file.contains(part), "C20 name-part: {:?} does not contain the caller's name part {:?}", name, part);
-            assert!(seen.insert(name.as_str()), "C20 duplicate: the path {:?} was returned to two calls", name);
+            if !file.contains(part) {
+                let msg = format!("C20 name-part: {:?} does not contain the caller's name part {:?}", name, part);
+                if let Ok(mut g) = VIOLATED.lock() { *g = Some(msg.clone()); }
+                panic!("{}", msg);
+            }
+            if !seen.insert(name.as_str()) {
+                let msg = format!("C20 duplicate: the path {:?} was returned to two calls", name);
+                if let Ok(mut g) = VIOLATED.lock() { *g = Some(msg.clone()); }
+                panic!("{}", msg);
+            }
         }
         // Interleaving signature: thread ids in the order in which their names were recorded.
         let mut h: u64 = 0xcbf2_9ce4_8422_2325;
@@ -228,6 +239,7 @@ fn child_search(args: &Args) -> i32 {
     let depth: usize = args.rest[3].parse().unwrap_or(0);
     let dir = PathBuf::from(&args.rest[4]);
     let r = search(&cfg, sched_seed, iterations, depth, &dir);
+    let r = match r { Ok(n) if VIOLATED.lock().ok().and_then(|g| g.clone()).is_some() => { let _ = n; Err(String::new()) }, other => other };
     let sigs: Vec<u64> = SIGS.lock().ok().and_then(|g| g.clone()).map(|s| s.into_iter().collect()).unwrap_or_default();
     let ex = EXECUTIONS.load(std::sync::atomic::Ordering::Relaxed);
     let st = STEPS.load(std::sync::atomic::Ordering::Relaxed);
@@ -256,7 +268,7 @@ fn run(args: &Args) -> i32 {
     let base = scratch_root().join(format!("shuttle-{}", std::process::id()));
     let _ = std::fs::create_dir_all(&base);
     let next = std::sync::atomic::AtomicU64::new(0);
-    let merged: StdMutex<(BTreeSet<u64>, u64, u64, Vec<(u64, Cfg, String, u64, usize)>, Vec<String>, Vec<(u64, u64, bool)>)> = StdMutex::new((BTreeSet::new(), 0, 0, Vec::new(), Vec::new(), Vec::new()));
+    let merged: StdMutex<(BTreeSet<u64>, u64, u64, Vec<(u64, Cfg, String, u64, usize)>, Vec<String>, Vec<(u64, u64, bool, u64)>)> = StdMutex::new((BTreeSet::new(), 0, 0, Vec::new(), Vec::new(), Vec::new()));
     std::thread::scope(|scope| {
         for w in 0..args.jobs {
             let next = &next; let merged = &merged; let base = &base;
@@ -278,7 +290,9 @@ fn run(args: &Args) -> i32 {
                             g.1 += v.get("executions").and_then(|x| x.as_u64()).unwrap_or(0);
                             g.2 += v.get("steps").and_then(|x| x.as_u64()).unwrap_or(0);
                             let ok = v.get("ok").and_then(|x| x.as_bool()).unwrap_or(false);
-                            g.5.push((i, v.get("executions").and_then(|x| x.as_u64()).unwrap_or(0), ok));
+                            let mut sh: u64 = 0xcbf2_9ce4_8422_2325;
+                            for s in v.get("sigs").and_then(|s| s.as_array()).into_iter().flatten() { sh ^= s.as_u64().unwrap_or(0); sh = sh.wrapping_mul(0x0000_0100_0000_01B3); }
+                            g.5.push((i, v.get("executions").and_then(|x| x.as_u64()).unwrap_or(0), ok, sh));
                             if !ok {
                                 let sched = v.get("schedule").and_then(|s| s.as_str()).unwrap_or("").to_string();
                                 g.3.push((i, cfg, sched, sched_seed, depth));
@@ -294,7 +308,7 @@ fn run(args: &Args) -> i32 {
     failures.sort_by_key(|f| f.0);
     log.sort();
     if let Some(path) = &args.log {
-        let text: String = log.iter().map(|(i, e, ok)| format!("{} {} {}\n", i, e, ok)).collect();
+        let text: String = log.iter().map(|(i, e, ok, sh)| format!("{} {} {} {:016x}\n", i, e, ok, sh)).collect();
         let _ = std::fs::write(path, text);
     }
     let explore_s = start.elapsed().as_secs_f64();
@@ -405,19 +419,19 @@ fn replay(args: &Args) -> i32 {
         s.set_allow_incomplete();
         Runner::new(s, config).run(scenario(cfg))
     }));
+    let violated = VIOLATED.lock().ok().and_then(|g| g.clone());
+    if let Some(msg) = violated {
+        println!("violation: {}", msg);
+        println!("VIOLATION property={} replay={}", PROP, path);
+        return 1;
+    }
     match r {
         Ok(_) => { println!("sdshuttle: replay ran clean: the recorded violation does not occur on this tree"); 0 },
         Err(e) => {
+            // The schedule no longer fits the code (e.g. a different number of scheduling points).
             let msg = e.downcast_ref::<String>().cloned().or_else(|| e.downcast_ref::<&str>().map(|s| s.to_string())).unwrap_or_default();
-            if msg.contains("C20") || msg.is_empty() || msg.contains("duplicate") {
-                println!("violation: {}", msg);
-                println!("VIOLATION property={} replay={}", PROP, path);
-                1
-            } else {
-                // The schedule no longer fits the code (e.g. a different number of scheduling points).
-                println!("HARNESS-ERROR replay diverged: {}", msg);
-                2
-            }
+            println!("sdshuttle: the recorded schedule does not fit this tree ({}); the recorded violation was not reproduced", msg);
+            0
         },
     }
 }
